@@ -34,6 +34,18 @@ Coverage audit (item -> stream that drives it ON THE IMPLEMENTATION; "P" = prope
                                       from an earlier call, strided, Fortran order), progress meter P
     jaccarddist_pairwise           -> pairwise-empties (square + flat); bulk-options: indices (repeats), flat, out=, progress P
     file-backed collection         -> bulk-file-backed (HDF5Signatures as references / all-pairs input) P
+    storing a signature            -> storage-paths-x-dtype-mixes (product construction path x dtype mix), storage-mixed-dtype-collections
+      (container constructors and      [store]: a list whose members have DIFFERENT integer types (u8 with i8 / i4 / i2, u4 with i8 / i4, u2
+      conversions)                     with i2, all six, unsigned only, one type as control), values in windows at the top of each member's
+                                      own type (2^15, 2^16, 2^31, 2^32, both sides of 2^53, 2^60, both sides of 2^63, 2^64-1), stored in a type
+                                      that holds every value through SignatureArray(list / tuple / keywords / SignatureList /
+                                      AnnotatedSignatures / SignatureArray; dtype= given or None with a fitting first member),
+                                      uninitialized + copy, from_arrays (int64 / int32 bounds), SignatureList(list / SignatureArray /
+                                      append-extend-insert), plain list / tuple (wrapped inside _matrix / _pairwise), HDF5 dump (from a
+                                      SignatureList, a SignatureArray, gzip) + load; then none / integer-array / boolean / slice / stepped
+                                      indexing, SignatureArray(dtype=) or SignatureList copy, AnnotatedSignatures.  d(x, stored x) == 0 both
+                                      orders for every member; every cell of jaccarddist_array / _matrix (originals x stored, stored x
+                                      stored, chunksize) / _pairwise (square, flat) over the stored collection judged by every clause P
     parallel kernel                -> bulk-many-references (40..150 references, OpenMP threads 2 / 3 / 4 / default; most other bulk
                                       cases run with 1 or 2 threads because one default-width call costs ~0.2 s here) P
     caller objects reused          -> [bulk] judges jaccarddist on the same array objects after the bulk call; [form] checks the
@@ -103,6 +115,15 @@ RULE = ('triples (A,B,C) of sorted duplicate-free arrays with per-set dtypes; ch
         'stored dtypes, both orders, bulk function: strictly decreasing; non-trivial: sets intersect, differ, and some k-mer '
         'is not above the maximum); mid-size-triples (seeded sets of 2*10^4..10^6 elements); cli-dist (printed 4-decimal '
         'matrices of gambit dist); non-trivial for collections: at least two pairs that intersect without being equal. '
+        'storage-* (kind store): a list of 2-6 signatures whose members have different integer types (unsigned with signed, wide '
+        'with narrow) and values up to the top of each member\'s own type (2^15 .. 2^64-1, both sides of 2^53 and 2^63), stored in a '
+        'type holding every value through each constructor / conversion path (SignatureArray from list / tuple / SignatureList / '
+        'AnnotatedSignatures / SignatureArray with dtype= or None, uninitialized + copy, from_arrays, SignatureList built three '
+        'ways, plain list / tuple, HDF5 dump + load; then integer / boolean / slice indexing, copies, AnnotatedSignatures): d(x, '
+        'stored x) = 0 in both orders for every member and every clause on every cell of jaccarddist_array / _matrix / '
+        '_pairwise over the stored collection (hence bit-equal to jaccarddist on the original arrays and on uint64 copies); '
+        'non-trivial: at least two member types, the largest k-mer beyond the range of some member\'s type, a pair that intersects '
+        'without being equal. '
         'state-* (kind seq): scripts of calls over shared caller objects (arrays, 9 collection types of two sizes, index objects '
         'with negative entries, one out= buffer per shape, a progress configuration) with caller-side changes between calls, '
         'calls failing part-way, worker threads and two calls at once; every computing step judged by every clause on the '
@@ -111,7 +132,11 @@ RULE = ('triples (A,B,C) of sorted duplicate-free arrays with per-set dtypes; ch
 TRUSTED = ['tools/pyx2v.py (Cython subset -> Gallina; C integer / binary32 semantics)',
            'Flocq binary32 model of C float division (validated bit-for-bit by the run)',
            'the script interpreter of kind seq (its record of what each collection holds is compared with the collection at the '
-           'end of every script)']
+           'end of every script)',
+           'the builders of kind store: they hand the caller\'s arrays unchanged to the constructor / conversion named in the case; the '
+           'harness\'s own member map through index / mask / slice conversions is checked against the length of the collection; '
+           'NumPy integer conversion between integer types holding the value (np.copyto / astype, no float intermediate) and h5py '
+           'integer dataset I/O']
 ASSUMPTIONS = ['inputs are sorted and duplicate-free', 'rounding-sensitive statements are claimed for |AuB| <= 2^24 '
                '(every k <= 12); beyond that see known findings C15-f1/f2',
                'read-only and non-native-byte-order arrays are outside the domain (the wrappers refuse them): judged by the '
@@ -120,7 +145,9 @@ ASSUMPTIONS = ['inputs are sorted and duplicate-free', 'rounding-sensitive state
                'state sequences: the caller changes its objects between calls, never during one; an out= array is the only argument an '
                'entry point may write to (documented); a call made to fail may raise anything or return, only the calls after it and '
                'the caller objects are judged; modification of a caller object = item size / bytes / element values / index values '
-               'differ (a same-width signed-unsigned view or a converted bounds dtype is not one)']
+               'differ (a same-width signed-unsigned view or a converted bounds dtype is not one)',
+               'kind store: the stored type holds every value of every member as a value (signed types without the sign bit); with '
+               'dtype=None the first member\'s type does (documented rule); narrowing stores are not driven']
 
 SLACK = Fraction(1, 2 ** 22)
 
@@ -803,6 +830,299 @@ def k_cli(ctx, cases):
 							what = what or f'triangle inequality fails on the printed cells ({i},{k}) > ({i},{j}) + ({j},{k}): {M[i][k]} > {M[i][j]} + {M[j][k]}'
 		if what:
 			ctx.violation('cli', c, f'gambit dist {c["mode"]}: {what} (signatures {sigs})')
+
+
+# ------------------------------------------------------------------------------------------------
+# storing: the same k-mer sets put into a collection through every constructor / conversion path, from members whose
+# integer types DIFFER and whose values reach the top of each member's own type
+# ------------------------------------------------------------------------------------------------
+
+STORE_BUILDS = ['sa-list', 'sa-tuple', 'sa-kw', 'sa-siglist', 'sa-annot', 'sa-sa', 'uninit', 'from-arrays', 'sl-list', 'sl-sa', 'sl-build',
+                'plain', 'tuple', 'hdf5-list', 'hdf5-array', 'hdf5-gzip']
+STORE_THEN = [None, 'int-index', 'bool-index', 'slice', 'step-slice', 'sa-copy', 'sl-copy', 'annotated']
+STORE_SPAN = 24
+# windows of STORE_SPAN consecutive values: bottom, the top of every integer type, both sides of 2^53 (above it not every
+# integer is a binary64 value), 2^60, both sides of 2^63
+STORE_WINDOWS = [0, 2 ** 15 - 24, 2 ** 16 - 24, 2 ** 31 - 24, 2 ** 32 - 24, 2 ** 53 - 8, 2 ** 53 + 2 ** 30 + 1, 2 ** 60 + 1, 2 ** 63 - 24,
+                 2 ** 63 - 4, 2 ** 64 - 24]
+# dtypes of the members of one collection (single-dtype collections are the control)
+STORE_MIXES = [('u8', 'i8'), ('u8', 'i4'), ('u8', 'i2'), ('i8', 'u8', 'i4'), ('u8', 'i8', 'u4', 'i2'), ('u4', 'i8'), ('u4', 'i4'), ('u4', 'i2'),
+               ('u2', 'i2'), ('u2', 'i4', 'i8'), ('i8', 'i4'), ('i4', 'i2'), ('u8', 'u4', 'u2'), ('u2', 'u4', 'u8', 'i2', 'i4', 'i8'), ('u8',), ('i8',),
+               ('u4',)]
+
+
+def _cap(dt):
+	"""number of values dtype dt can hold as values (signed types: without the sign bit)"""
+	return 2 ** (8 * int(dt[1]) - (1 if dt[0] == 'i' else 0))
+
+
+def _store_build(c, arrs, closers):
+	"""the caller's arrays arrs stored through the construction path c['build'], then converted by c['then']; returns the
+	collection and, for each of its positions, the number of the original signature it must hold"""
+	import os
+	from gambit.kmers import KmerSpec
+	from gambit.sigs import SignaturesMeta, dump_signatures, load_signatures
+	from gambit.sigs.base import SignatureArray, SignatureList, AnnotatedSignatures
+	how = c['build']
+	n = len(arrs)
+	cdt = None if c.get('cdt') is None else np.dtype(c['cdt'])
+	eff = np.dtype(c['dts'][0]) if cdt is None else cdt        # documented: dtype=None takes the first element's
+	ks = KmerSpec(32, 'ATGAC') if c.get('kspec') or how.startswith('hdf5') else None
+	if how == 'sa-list':
+		cont = SignatureArray(list(arrs), ks, cdt)
+	elif how == 'sa-tuple':
+		cont = SignatureArray(tuple(arrs), ks, cdt)
+	elif how == 'sa-kw':
+		cont = SignatureArray(signatures=list(arrs), kmerspec=ks, dtype=cdt)
+	elif how == 'sa-siglist':
+		cont = SignatureArray(SignatureList(arrs, ks, dtype=eff), dtype=cdt)
+	elif how == 'sa-annot':
+		cont = SignatureArray(AnnotatedSignatures(SignatureList(arrs, ks, dtype=eff)), dtype=cdt)
+	elif how == 'sa-sa':
+		cont = SignatureArray(SignatureArray(list(arrs), ks, np.dtype(c['mid'])), dtype=cdt)
+	elif how == 'uninit':
+		cont = SignatureArray.uninitialized([len(a) for a in arrs], ks, dtype=eff)
+		for i, a in enumerate(arrs):
+			np.copyto(cont[i], a, casting='unsafe')
+	elif how == 'from-arrays':
+		values = _arr([x for s in c['sigs'] for x in s], eff.str[1:])
+		bounds = np.cumsum([0] + [len(s) for s in c['sigs']]).astype(c.get('bdt', 'i8'))
+		cont = SignatureArray.from_arrays(values, bounds, ks)
+	elif how == 'sl-list':
+		cont = SignatureList(list(arrs), ks, cdt)
+	elif how == 'sl-sa':
+		cont = SignatureList(SignatureArray(list(arrs), ks, eff))
+	elif how == 'sl-build':
+		cont = SignatureList([], ks, dtype=eff)
+		cont.append(arrs[0])
+		cont.extend(arrs[2:])
+		if n > 1:
+			cont.insert(1, arrs[1])
+	elif how == 'plain':
+		cont = list(arrs)
+	elif how == 'tuple':
+		cont = tuple(arrs)
+	elif how.startswith('hdf5'):
+		path = os.path.join(_scratch(), 'store.gs')
+		if os.path.exists(path):
+			os.remove(path)
+		if how == 'hdf5-array':
+			dump_signatures(path, SignatureArray(list(arrs), ks, eff), 'hdf5')
+		elif how == 'hdf5-gzip':
+			dump_signatures(path, SignatureList(list(arrs), ks, eff), 'hdf5', compression='gzip', compression_opts=4)
+		else:
+			ids = np.array([f'g{i}' for i in range(n)], dtype=object)
+			dump_signatures(path, AnnotatedSignatures(SignatureList(list(arrs), ks, eff), ids, SignaturesMeta(id_attr='key')), 'hdf5')
+		cont = load_signatures(path)
+		closers.append(cont.close)
+	else:
+		raise ValueError(how)
+	mem = list(range(n))
+	then = c.get('then')
+	if then is None:
+		pass
+	elif then == 'int-index':
+		cont = cont[_idx(c['idx'], c.get('idxtype', 'list'))]
+		mem = [mem[i] for i in c['idx']]
+	elif then == 'bool-index':
+		cont = cont[np.array(c['mask'], dtype=bool) if c.get('idxtype') == 'np' else [bool(b) for b in c['mask']]]
+		mem = [m for m, b in zip(mem, c['mask']) if b]
+	elif then == 'slice':
+		cont = cont[c['slice'][0]:c['slice'][1]]
+		mem = mem[c['slice'][0]:c['slice'][1]]
+	elif then == 'step-slice':
+		cont = cont[::c['step']]
+		mem = mem[::c['step']]
+	elif then == 'sa-copy':
+		cont = SignatureArray(cont, dtype=np.dtype(c['cdt2']))
+	elif then == 'sl-copy':
+		cont = SignatureList(cont)
+	elif then == 'annotated':
+		cont = AnnotatedSignatures(cont)
+	else:
+		raise ValueError(then)
+	return cont, mem
+
+
+def _store_nontrivial(c):
+	"""members of at least two integer types, the largest k-mer beyond the range of some member's own type, and a pair of
+	sets that intersects without being equal"""
+	SU = _su_table(c['sigs'])
+	top = max([x for s in c['sigs'] for x in s], default=0)
+	return (len(set(c['dts'])) >= 2 and any(not _fits(dt, top) for dt in c['dts'])
+	        and any(0 < SU[i][j][0] < SU[i][j][1] for i in range(len(SU)) for j in range(i)))
+
+
+def k_store(ctx, cases):
+	"""the distance does not depend on the container / integer type a signature is stored in: a list of signatures whose
+	members have DIFFERENT integer types (unsigned next to signed, wide next to narrow) and values up to the top of each
+	member's own type is stored through one constructor / conversion path (SignatureArray from list / tuple / SignatureList
+	/ AnnotatedSignatures / SignatureArray with and without dtype=, uninitialized + copy, from_arrays, SignatureList from
+	list / SignatureArray / built by append-extend-insert, plain list / tuple wrapped by the bulk functions, HDF5 dump +
+	load) in a type that holds every value, optionally followed by integer / boolean / slice indexing or a further
+	copy.  Judged: d(x, stored x) == 0 in both orders for every member, and every clause on every cell of jaccarddist_array /
+	_matrix / _pairwise over the stored collection against the harness's own integer sets (so each cell has the bits of
+	jaccarddist on the ORIGINAL arrays, themselves judged, and of the same sets held in 64-bit unsigned arrays)"""
+	from gambit.metric import jaccarddist, jaccarddist_array, jaccarddist_matrix, jaccarddist_pairwise
+	for c in cases:
+		sigs, dts = c['sigs'], c['dts']
+		n = len(sigs)
+		SU = _su_table(sigs)
+		arrs = [_arr(s, dt) for s, dt in zip(sigs, dts)]
+		ctx.case(c, nontrivial=_store_nontrivial(c))
+		desc = f'{c["build"]}(dtype={c.get("cdt")})' + (f' then {c["then"]}' if c.get('then') else '') + f' of members typed {dts}'
+		closers = []
+		omp = _omp(c.get('omp', 1))
+		omp.__enter__()
+		try:
+			# the originals, and the same sets in the widest type
+			D0 = [[jaccarddist(arrs[i], arrs[j]) for j in range(n)] for i in range(n)]
+			if _judge(ctx, 'store', c, D0, SU, 'jaccarddist on the original arrays'):
+				continue
+			wide = [np.array(s, dtype='u8') for s in sigs]
+			bad = [(i, j) for i in range(n) for j in range(n) if f32_bits(jaccarddist(wide[i], wide[j])) != f32_bits(D0[i][j])]
+			if bad:
+				i, j = bad[0]
+				ctx.violation('store', c, f'd({i},{j}) = {float(D0[i][j])!r} with dtypes ({dts[i]},{dts[j]}) but {float(jaccarddist(wide[i], wide[j]))!r} '
+				              'when both sets are held in uint64 arrays: the distance changes with the integer width', pair=[i, j])
+				continue
+			try:
+				cont, mem = _store_build(c, arrs, closers)
+				if len(cont) != len(mem):
+					raise _Shape(f'the collection has {len(cont)} members for {len(mem)} signatures put there')
+			except Exception as e:
+				ctx.violation('store', c, f'storing valid signatures by {desc} raised {type(e).__name__}: {e}: no distances')
+				continue
+			m = len(mem)
+			tables = []
+			try:
+				# identity: the stored member against the caller's original, both orders
+				what = None
+				for t, p in enumerate(mem):
+					x = cont[t]
+					for v, order in ((jaccarddist(arrs[p], x), 'd(x, stored x)'), (jaccarddist(x, arrs[p]), 'd(stored x, x)')):
+						if float(v) != 0:
+							what = (f'{order} = {float(v)!r} != 0 for signature {p} ({dts[p]}) at position {t} of {desc}, stored as {np.asarray(x).dtype}: '
+							        f'original {sigs[p][:8]}, stored {[int(y) for y in np.asarray(x)[:8]]}')
+							ctx.violation('store', c, what, member=p, position=t, impl=f32_bits(v))
+							break
+					if what:
+						break
+				if what:
+					continue
+				rows = [jaccarddist_array(arrs[i], cont) for i in range(n)]
+				if any(r.shape != (m,) for r in rows):
+					raise _Shape(f'jaccarddist_array: rows of shapes {[r.shape for r in rows]} for {m} references')
+				tables.append(('jaccarddist_array(original, stored)', [(i, mem[t], rows[i][t]) for i in range(n) for t in range(m)]))
+				kw = {} if c.get('chunksize') is None else {'chunksize': c['chunksize']}
+				M = jaccarddist_matrix(list(arrs), cont, **kw)
+				if M.shape != (n, m):
+					raise _Shape(f'jaccarddist_matrix: shape {M.shape} for {n} queries and {m} references')
+				tables.append(('jaccarddist_matrix(originals, stored)', [(i, mem[t], M[i, t]) for i in range(n) for t in range(m)]))
+				S = jaccarddist_matrix(cont, cont, **kw)
+				if S.shape != (m, m):
+					raise _Shape(f'jaccarddist_matrix: shape {S.shape} for {m} queries and {m} references')
+				tables.append(('jaccarddist_matrix(stored, stored)', [(mem[s], mem[t], S[s, t]) for s in range(m) for t in range(m)]))
+				flat = bool(c.get('flat'))
+				P = jaccarddist_pairwise(cont, flat=flat)
+				if P.shape != ((m * (m - 1) // 2,) if flat else (m, m)):
+					raise _Shape(f'jaccarddist_pairwise: shape {P.shape} for {m} signatures, flat={flat}')
+				if flat:
+					cells, k = [], 0
+					for s in range(m):
+						for t in range(s + 1, m):
+							cells.append((mem[s], mem[t], P[k]))
+							k += 1
+				else:
+					cells = [(mem[s], mem[t], P[s, t]) for s in range(m) for t in range(m)]
+				tables.append(('jaccarddist_pairwise(stored)', cells))
+			except Exception as e:
+				ctx.violation('store', c, f'a distance call on the collection stored by {desc} raised {type(e).__name__}: {e} for valid signatures: no distances')
+				continue
+			for name, cells in tables:
+				D = [[None] * n for _ in range(n)]
+				bad = False
+				for i, j, v in cells:
+					if D[i][j] is not None and f32_bits(D[i][j]) != f32_bits(v) and not (v != v and D[i][j] != D[i][j]):
+						ctx.violation('store', c, f'{name} after {desc}: two cells for the pair ({i},{j}) differ: {float(D[i][j])!r} and {float(v)!r}', pair=[i, j])
+						bad = True
+						break
+					D[i][j] = v
+				if bad or _judge(ctx, 'store', c, D, SU, f'{name} after {desc}'):
+					break
+		finally:
+			omp.__exit__()
+			for f in closers:
+				try:
+					f()
+				except Exception:
+					pass
+
+
+def _store_case(rng, rnd, build, mix, then):
+	"""one collection: 2-6 members typed from mix, values from windows at the top of the members' own types (a member only
+	takes values its type holds), shared between members so that sets intersect; a stored dtype that holds every value"""
+	n = rng.randint(max(2, min(len(mix), 4)), 6)
+	dts = (list(mix) + [rng.choice(mix) for _ in range(n)])[:n]
+	rng.shuffle(dts)
+	widest = max(dts, key=_cap)
+	def topwin(dt):
+		return max(w for w in STORE_WINDOWS if w + STORE_SPAN <= _cap(dt))
+	wins = {topwin(widest)} | {topwin(dt) for dt in rng.sample(dts, min(2, n))}
+	wins |= set(rng.sample([w for w in STORE_WINDOWS if w + STORE_SPAN <= _cap(widest)], rng.randint(1, 2)))
+	base = {w: sorted(rng.sample(range(STORE_SPAN), rng.randint(2, 5))) for w in wins}
+	sigs = []
+	for i, dt in enumerate(dts):
+		r = rng.random()
+		prev = [s for s in sigs if s and s[-1] < _cap(dt)]
+		if r < 0.07:
+			sig = []
+		elif r < 0.2 and prev:
+			sig = list(rng.choice(prev))            # an equal set, possibly in another type
+		else:
+			sig = set()
+			for w in wins:
+				if w + STORE_SPAN <= _cap(dt):
+					sig |= {w + x for x in base[w] if rng.random() < 0.7}
+					if rng.random() < 0.25:
+						sig.add(w + rng.randrange(STORE_SPAN))
+			sig = sorted(sig)
+		sigs.append(sig)
+	if not any(sigs):
+		sigs[0] = [1]
+	top = max(x for s in sigs for x in s)
+	fit = [dt for dt in DTYPES if _fits(dt, top)]
+	c = dict(sigs=sigs, dts=dts, build=build, cdt=rng.choice(fit + [max(fit, key=_cap)]), then=then, kspec=rng.random() < 0.3, omp=1 + rnd % 2,
+	         chunksize=rng.choice([None, 1, 2]), flat=rng.random() < 0.5)
+	if rnd % 3 == 0 and build in ('sa-list', 'sa-tuple', 'sa-kw', 'sa-siglist', 'sa-annot', 'sa-sa', 'sl-list', 'sl-sa'):
+		# dtype=None: the stored type is the first member's (documented), so a member whose type holds every value goes first
+		first = [i for i in range(n) if _fits(dts[i], top)]
+		if first:
+			i = rng.choice(first)
+			sigs.insert(0, sigs.pop(i))
+			dts.insert(0, dts.pop(i))
+			c['cdt'] = None
+	if build == 'sa-sa':
+		c['mid'] = dts[0] if c['cdt'] is None else rng.choice(fit)
+	if build == 'from-arrays':
+		c['bdt'] = rng.choice(['i8', 'i4'])
+	if build in ('plain', 'tuple'):
+		c['then'] = then = None
+	if then == 'int-index':
+		c['idx'] = [rng.randrange(-n, n) for _ in range(rng.randint(2, n + 1))]
+		c['idxtype'] = rng.choice(['list', 'tuple', 'np', 'np32'])
+	elif then == 'bool-index':
+		keep = set(rng.sample(range(n), rng.randint(2, n)))
+		c['mask'] = [int(i in keep) for i in range(n)]
+		c['idxtype'] = rng.choice(['list', 'np'])
+	elif then == 'slice':
+		a = rng.randint(0, n - 2)
+		c['slice'] = [a, rng.randint(a + 2, n)]
+	elif then == 'step-slice':
+		c['step'] = rng.choice([-1, 2] if n > 2 else [-1])
+	elif then == 'sa-copy':
+		c['cdt2'] = rng.choice(fit)
+	return c
 
 
 # ------------------------------------------------------------------------------------------------
@@ -1746,7 +2066,7 @@ def finish(ctx):
 
 
 KINDS = {'triple': k_triple, 'big': k_big, 'width': k_width, 'pairwise': k_pairwise,
-         'form': k_form, 'bulk': k_bulk, 'addx': k_addx, 'mid': k_mid, 'cli': k_cli, 'seq': k_seq}
+         'form': k_form, 'bulk': k_bulk, 'addx': k_addx, 'mid': k_mid, 'cli': k_cli, 'seq': k_seq, 'store': k_store}
 SHRINK = False
 
 
@@ -1918,6 +2238,17 @@ def generate(ctx):
 		         threads=rnd % 4 == 3, flat=False, nq=12, omp=(0, 4, 2, 3)[rnd % 4])
 		ctx.count('stream:bulk-many-references')
 		yield 'bulk', c
+	# storing: members of DIFFERENT integer types with values up to the top of each member's own type, through every
+	# constructor / conversion path; first the product path x dtype mix (the following conversion cycles), then random
+	cnt = 0
+	for build in STORE_BUILDS:
+		for mix in STORE_MIXES[:14]:
+			cnt += 1
+			ctx.count('stream:storage-paths-x-dtype-mixes')
+			yield 'store', _store_case(rng, cnt, build, mix, STORE_THEN[cnt % len(STORE_THEN)])
+	for rnd in range(ctx.pick(260, 2500)):
+		ctx.count('stream:storage-mixed-dtype-collections')
+		yield 'store', _store_case(rng, rnd, rng.choice(STORE_BUILDS), rng.choice(STORE_MIXES), rng.choice(STORE_THEN))
 	# adding common k-mers at every position, chains, stored dtypes
 	for rnd in range(ctx.pick(150, 1500)):
 		da, db = rng.choice(DTYPES), rng.choice(DTYPES)
